@@ -292,7 +292,13 @@ func runC09(t *rapid.T) {
 	c.open()
 	defer func() {
 		if c.w != nil {
-			_ = c.w.Close()
+			// bounded: a log that is blocked (reported above) must not block the clean-up as well
+			w, done := c.w, make(chan struct{})
+			go func() { _ = w.Close(); close(done) }()
+			select {
+			case <-done:
+			case <-time.After(5 * time.Second):
+			}
 		}
 	}()
 	seg := int64(segSize)
@@ -402,7 +408,10 @@ func runC09(t *rapid.T) {
 			if c.m.appended == -1 {
 				o = int64(rapid.IntRange(-1, 5).Draw(t, "truncEmpty"))
 				c.logf("TruncateLog(%d) on empty", o)
-				got, err := c.w.TruncateLog(o)
+				got, err, returned := boundedTruncate(c.w, o)
+				if !returned {
+					t.Fatalf("C09: TruncateLog(%d) on an empty log did not return within 30 s; ops=%v", o, c.ops)
+				}
 				if err != nil || got != -1 {
 					t.Fatalf("TruncateLog(%d) on empty log = %d,%v; ops=%v", o, got, err, c.ops)
 				}
@@ -428,7 +437,10 @@ func runC09(t *rapid.T) {
 				c.crossSeg = true
 			}
 			c.logf("TruncateLog(%d) bases=%v", o, bases)
-			got, err := c.w.TruncateLog(o)
+			got, err, returned := boundedTruncate(c.w, o)
+			if !returned {
+				t.Fatalf("C09: TruncateLog(%d) did not return within 30 s (the log is blocked); ops=%v", o, c.ops)
+			}
 			if err != nil {
 				t.Fatalf("TruncateLog(%d): %v; ops=%v", o, err, c.ops)
 			}
@@ -574,3 +586,22 @@ func TestC09_WalModel(t *testing.T) {
 }
 
 var _ = errors.New
+
+// boundedTruncate: a local log operation that does not return within 30 s is a blocked log, not a slow one.
+func boundedTruncate(w wal.Wal, o int64) (int64, error, bool) {
+	type res struct {
+		o   int64
+		err error
+	}
+	ch := make(chan res, 1)
+	go func() {
+		got, err := w.TruncateLog(o)
+		ch <- res{got, err}
+	}()
+	select {
+	case r := <-ch:
+		return r.o, r.err, true
+	case <-time.After(30 * time.Second):
+		return 0, nil, false
+	}
+}
